@@ -68,6 +68,7 @@ def roundtrip_work(P, item):
     st = build()
     hk = st["sigproc"].header_keys
     label = "roundtrip[" + ",".join(keys) + "]"
+    wit = [1]
 
     def run(ctx):
         entries, cons = [], []
@@ -126,6 +127,9 @@ def roundtrip_work(P, item):
         viol.append(("parse(encode(h)) = h", z3.Or(bad2)))
         # data length bookkeeping
         viol.append(("datalen = file length - hdrlen", term(o["h"]["datalen"]) != o["L"]))
+        if wit[0] > 0 and ctx.check(z3.Or([c for _, c in viol])) == z3.unsat:
+            wit[0] -= 1
+            P.witness("c05", dict(kind="roundtrip", keys=keys, sshift=sshift), f"roundtrip-witness-{'-'.join(keys)}-{sshift}", label)
         for n_, c in viol:
             if ctx.check(c) == z3.unsat:
                 P.obligation(f"{label}/{n_}", "holds")
@@ -193,6 +197,8 @@ def edit_work(P, item):
             err = type(e).__name__
         return dict(before=before, after=tf.content, err=err, tf=tf, tp=tp, value=value, entries=entries)
 
+    witE = [1]
+
     def on_path(ctx, o):
         Ctx.cur = ctx
         P.reached += 1
@@ -221,6 +227,9 @@ def edit_work(P, item):
                 viol.append(("accepted an edit that cannot be encoded", z3.BoolVal(True)))
             viol.append(("header length unchanged", z3.BoolVal(len(o["after"]) != len(o["before"]))))
             viol.append(("edited key exists in the file", z3.BoolVal(ekey not in [k for k, _, _ in o["entries"]])))
+        if witE[0] > 0 and ctx.check(z3.Or([c for _, c in viol])) == z3.unsat:
+            witE[0] -= 1
+            P.witness("c05", dict(kind="edit", keys=keys, ekey=ekey, evalkind=evalkind), f"edit-witness-{'-'.join(keys)}-{ekey}-{evalkind}".replace(" ", "_").replace(":", ""), label)
         for n_, c in viol:
             if ctx.check(c) == z3.unsat:
                 P.obligation(f"{label}/{n_}", "holds")
